@@ -74,6 +74,52 @@ def gen(prop, tier, rng):
     return traces
 
 
+def state_machine(rep, traces, prop):
+    """spec/ClientState.tla (growth beyond the listed properties, DESIGN 9.10): the assignments to client.state recorded during every
+    call are validated as walks of the state machine.  A rejection is a divergence of that model, never a verdict on C08 / C13."""
+    res = model_check("ClientStateMC", "ClientStateMC.cfg", workers=4, timeout=300)
+    rep.add_mc(res, "ClientStateMC.cfg")
+    bad, _ = model_check_expect_violation("ClientStateMC", "ClientStateMC_dev.cfg", workers=4)
+    if not bad:
+        raise MachineryError("ClientState with deviation NoSettle satisfies RtuSendsFromIdle: vacuous")
+    st_traces = [{"id": t["id"], "kind": t["kind"], "txns": [{"s0": x["s0"], "states": x["states"], "how": x["how"]} for x in t["txns"]]}
+                 for t in traces if t["txns"]]
+    verd, st = validate_traces("ClientStateTrace", "ClientStateTrace.cfg", st_traces)
+    rep.add_tv(st, len(st_traces), sum(len(x["states"]) for t in st_traces for x in t["txns"]))
+    out = [i for i, v in verd.items() if v["status"] != "OK"]
+    byid = {t["id"]: t for t in traces}
+    for i in out[:5]:
+        d = verd[i].get("detail", {})
+        print("MODEL-DIVERGENCE %s: the client.state assignments of call %d of history %s (%s) are not a walk of spec/ClientState.tla: "
+              "from state %s assigned %s, stuck at assignment %s (not a listed property; reported, not a violation)"
+              % (prop, verd[i]["step"], i, byid[i]["client"], d.get("s0"), d.get("states"), d.get("stuck")))
+    # teeth: an accepted call with an assignment removed / a send that skips the settling step must be rejected
+    good = next((t for t in st_traces if verd.get(t["id"], {}).get("status") == "OK" and t["kind"] == "rtu" and len(t["txns"]) >= 2
+                 and all(x["how"] == 1 and len(x["states"]) >= 3 for x in t["txns"][:2])), None)
+    if good is None:
+        raise MachineryError("ClientState self-test: no accepted RTU history with two returned calls")
+    forged = []
+    m = copy.deepcopy(good)
+    m["id"] = "st1"
+    m["txns"][0]["states"] = [v for v in m["txns"][0]["states"] if v != 1]            # the SENDING assignment removed
+    forged.append(m)
+    m = copy.deepcopy(good)
+    m["id"] = "st2"
+    m["txns"] = m["txns"][:2]
+    if m["txns"][1]["states"][:1] == [0]:
+        m["txns"][1]["states"] = m["txns"][1]["states"][1:]                          # RTU sends without settling to IDLE first
+    else:
+        m["txns"][1]["states"] = [3] + m["txns"][1]["states"]
+    forged.append(m)
+    sv, _ = validate_traces("ClientStateTrace", "ClientStateTrace.cfg", forged, shards=1)
+    if any(sv[k]["status"] != "FAIL" for k in ("st1", "st2")):
+        raise MachineryError("ClientState self-test: forged state walk accepted: %r" % {k: sv[k]["status"] for k in sv})
+    shapes = sorted({(t["kind"] == "rtu", x["s0"], tuple(x["states"]), x["how"]) for t in st_traces for x in t["txns"]})
+    rep.notes["client_state_machine"] = {"histories": len(st_traces), "calls": sum(len(t["txns"]) for t in st_traces),
+                                         "distinct_assignment_sequences": len(shapes), "outside_model": len(out),
+                                         "forged_walks_rejected": 2, "mc_states": res.get("distinct")}
+
+
 def run(prop, tier):
     rng = random.Random(seed() * 7 + int(prop[1:]))
     rep = Report(prop, tier, "model_checking" if prop == "C08" else "fault_enumeration")
@@ -149,6 +195,7 @@ def run(prop, tier):
             rep.violation("%s-%s" % (t["client"], "-".join(sorted(mine))),
                           {"property": prop, "engine": "ClientTrace", "tag": t["client"], "trace": t, "verdict": v})
     rep.notes["failures_owned_by_sibling_property"] = sibling
+    state_machine(rep, traces, prop)
     # self-test: forge a foreign reply / an extra transmission
     b = next((t for t in ok if t["txns"][0]["result"]["kind"] == "reply"), None)
     if b is None:
